@@ -264,7 +264,7 @@ class Summaries:
     def core_summary(self, ctx, tp, key, name, a, s0):
         I = ctx.I
         if tp in ("core::clone::Clone::clone", "core::borrow::Borrow::borrow", "core::convert::AsRef::as_ref",
-                  "core::borrow::BorrowMut::borrow_mut", "core::convert::AsMut::as_mut") and "::fields::" not in key:
+                  "core::borrow::BorrowMut::borrow_mut", "core::convert::AsMut::as_mut") and not key.startswith("fields::") and not key.startswith("<fields::"):
             return a[0]
         if tp.startswith("core::ops::Deref::deref") or tp.startswith("core::ops::DerefMut::deref_mut"):
             if "once_cell::sync::Lazy" in key:
@@ -494,6 +494,8 @@ class Summaries:
                                                                    lambda a: [a[0], a[1], variant("Yes")]),
         "ark_serialize::CanonicalSerialize::compressed_size": ("ark_serialize::CanonicalSerialize", "serialized_size",
                                                               lambda a: [a[0], variant("Yes")]),
+        "ark_r1cs_std::eq::EqGadget::enforce_equal": ("ark_r1cs_std::eq::EqGadget", "conditional_enforce_equal", lambda a: [a[0], a[1], TRUE]),
+        "ark_r1cs_std::eq::EqGadget::enforce_not_equal": ("ark_r1cs_std::eq::EqGadget", "conditional_enforce_not_equal", lambda a: [a[0], a[1], TRUE]),
         "core::iter::Iterator::sum": ("core::iter::Sum", "sum", lambda a: [a[0]]),
         "core::iter::Iterator::product": ("core::iter::Product", "product", lambda a: [a[0]]),
     }
@@ -1110,12 +1112,105 @@ class Summaries:
                 return variant("Ok", mk("value_of", a[0]))
         if tp in ("ark_r1cs_std::alloc::AllocVar::new_witness", "ark_r1cs_std::alloc::AllocVar::new_input",
                   "ark_r1cs_std::alloc::AllocVar::new_constant", "ark_r1cs_std::alloc::AllocVar::new_variable"):
-            return NotImplemented
+            return self.alloc(ctx, tp, key, name, a)
+        if tp == "ark_r1cs_std::groups::CurveVar::new_variable_omit_prime_order_check" and "AffineVar<P, F>" in key:
+            mode = a[2]
+            r = I.apply_fn(a[1], [], ctx.e, ctx.env, ctx.fr)
+            val = r[0] if r is not None else mk("bottom")
+            okv = payload(val, "Ok", 0)
+            n = mk("alloc_id", I.fresh("alloc"))
+            ctx.effect("alloc", mode, mk("strlit", "affine_point_unchecked"), okv, n)
+            cmode = mode.op == "variant" and mode.args[0] == "Constant"
+            v = okv if cmode else mk("allocated", mode, mk("strlit", "affine"), n, okv)
+            return ite(is_variant(val, "Ok"), variant("Ok", v), variant("Err", payload(val, "Err", 0)))
+        so_r = sort_of(ctx.ret_ty())[0]
+        if so == "affvar" or "AffineVar<P, F>" in key or "AffineVar::<P, F>" in tp:
+            if tp.endswith("AffineVar::<P, F>::new"):
+                return teaff(a[0], a[1])
+            if tp == "core::ops::Add::add":
+                return mk("gadd", a[0], a[1])
+            if tp == "core::ops::Sub::sub":
+                return mk("gadd", a[0], mk("gneg", a[1]))
+            if tp == "core::ops::AddAssign::add_assign":
+                ctx.write(0, mk("gadd", a[0], a[1]))
+                return UNIT
+            if tp == "core::ops::SubAssign::sub_assign":
+                ctx.write(0, mk("gadd", a[0], mk("gneg", a[1])))
+                return UNIT
+            if tp == "ark_r1cs_std::groups::CurveVar::negate":
+                return variant("Ok", mk("gneg", a[0]))
+            if tp == "ark_r1cs_std::groups::CurveVar::double_in_place":
+                ctx.write(0, mk("gdbl", a[0]))
+                return variant("Ok", UNIT)
+            if tp == "ark_r1cs_std::groups::CurveVar::zero":
+                return mk("gzero")
+            if tp == "ark_r1cs_std::groups::CurveVar::constant":
+                return a[0]
+            if tp == "ark_r1cs_std::R1CSVar::cs":
+                return mk("cs")
+            if tp in ("ark_r1cs_std::ToBitsGadget::to_bits_le", "ark_r1cs_std::ToBytesGadget::to_bytes"):
+                return variant("Ok", mk(name, a[0]))
+        if tp in ("ark_r1cs_std::ToBitsGadget::to_bits_le", "ark_r1cs_std::ToBytesGadget::to_bytes") and "Vec<" in key:
+            return variant("Ok", a[0])
+        if tp == "ark_relations::r1cs::Namespace::<F>::new" or tp.endswith("ConstraintSystemRef::<F>::ns"):
+            return mk("cs")
         if tp == "ark_r1cs_std::ToBitsGadget::to_bits_le" and "Vec<T>" in key:
             return variant("Ok", a[0])
         if tp in ("ark_relations::r1cs::Namespace::<F>::cs", "ark_r1cs_std::R1CSVar::cs"):
             return mk("cs")
         return NotImplemented
+
+
+def _alloc(self, ctx, tp, key, name, a):
+    """AllocVar::{new_witness,new_input,new_constant,new_variable}: provided methods forward to new_variable(cs, f, mode)"""
+    I = ctx.I
+    if (ctx.c.get("inst") or {}).get("local") and I.prog.body(key) is not None:
+        return NotImplemented        # an impl of this crate: interpret its body
+    mode = {"new_witness": variant("Witness"), "new_input": variant("Input"), "new_constant": variant("Constant")}.get(name)
+    targs = ctx.targs
+    selfty = targs[0] if targs else ""
+    if name == "new_variable":
+        mode = a[2]
+    # an impl of this crate?  (AllocVar<Element>/<AffinePoint>/<Fq> for the two ElementVar types)
+    if name != "new_variable" or not (ctx.c.get("inst") or {}).get("local"):
+        cand = None
+        vt = targs[1] if len(targs) > 1 else None
+        for (tr, st), im in I.prog.impl_index.items():
+            if st == strip_lt(selfty) and tr.startswith("ark_r1cs_std::alloc::AllocVar<"):
+                if vt is None or tr.startswith("ark_r1cs_std::alloc::AllocVar<%s," % strip_lt(vt)):
+                    cand = im
+        if cand is not None:
+            path = [it["path"] for it in cand["items"] if it["name"] == "new_variable"]
+            if path and I.prog.body(path[0]) is not None:
+                if name == "new_constant":
+                    f = mk("const_closure", a[1])
+                    args = [a[0], f, mode]
+                else:
+                    args = [a[0], a[1], mode]
+                c2 = {"path": "ark_r1cs_std::alloc::AllocVar::new_variable", "args": targs, "trait": "ark_r1cs_std::alloc::AllocVar",
+                      "inst": {"path": path[0], "local": True, "args": targs}}
+                r = I.do_call(c2, args, [None] * len(args), ctx.e, ctx.env, ctx.fr)
+                if r is None:
+                    return None
+                ctx.env = r[1]
+                return r[0]
+    # external variable types (FpVar, Boolean)
+    kind = "fq" if "FpVar" in selfty else ("bool" if "Boolean" in selfty else selfty)
+    if name == "new_constant":
+        return variant("Ok", a[1])
+    r = I.apply_fn(a[1], [], ctx.e, ctx.env, ctx.fr)
+    val = r[0] if r is not None else mk("bottom")
+    okv = payload(val, "Ok", 0)
+    n = mk("alloc_id", I.fresh("alloc"))
+    ctx.effect("alloc", mode, mk("strlit", kind), okv, n)
+    if mode.op == "variant" and mode.args[0] == "Constant":
+        v = okv
+    else:
+        v = mk("allocated", mode, mk("strlit", kind), n, okv)
+    return ite(is_variant(val, "Ok"), variant("Ok", v), variant("Err", payload(val, "Err", 0)))
+
+
+Summaries.alloc = _alloc
 
 
 def self_len(x, ty):
